@@ -2,7 +2,7 @@
 from checks.trielib import parse_list
 
 SESS = ["s1", "s2", "s3"]
-CLIENTS = ["c1", "c2"]
+CLIENTS = ["c1", "c2", "~"]      # ~ : the empty client identifier
 MOUNTS = ["mp", "mq"]
 PATTERNS = ["mp/a", "mp/a/b", "mp/a/#", "mp/+/b", "mp/#", "mq/a", "mp/a//b", "mp//"]
 TOPICS = ["mp/a", "mp/a/b", "mp/b", "mq/a", "mp/a//b", "mp/"]
@@ -103,3 +103,31 @@ def random_local_op(rng, node, state_hint=None, bulk_bias=0.15):
     if k == "tset":
         return f"tset {node} {rng.choice(TOPICS)} {rng.choice(['01', '02', '0304', '05'])} {rng.choice([0, 1])} 1"
     return f"tdel {node} {rng.choice(TOPICS)}"
+
+
+def monotone_store(ops, impl, resets=("reset",)):
+    """a replicated store only moves forward: between two `full n` listings of one node no key disappears and no key's
+    stamp decreases (valid where every clock is monotone: one tick per op, fixed offsets smaller than a tick)"""
+    out = []
+    last = {}
+    for i, (op, res) in enumerate(zip(ops, impl)):
+        f = op.split()
+        if f[0] in resets:
+            last = {}
+        elif f[0] == "off" and abs(int(f[2])) >= 10:
+            last = {}       # a clock jump: the comparison starts afresh
+        elif f[0] == "full" and len(f) == 2:
+            try:
+                cur = parse_full(res)
+            except Exception:
+                continue
+            prev = last.get(f[1])
+            if prev is not None:
+                gone = [v[3] for k, v in prev.items() if k not in cur]
+                back = [f"{prev[k][3]} -> {cur[k][3]}" for k in prev if k in cur and cur[k][0] < prev[k][0]]
+                if gone:
+                    out.append((i, "entry-forgotten", f"node {f[1]} no longer stores {gone[:3]} (additions and removals are both part of the state)"))
+                if back:
+                    out.append((i, "older-update-overrode-newer", f"node {f[1]}: {back[:3]}"))
+            last[f[1]] = cur
+    return out
